@@ -141,6 +141,7 @@ struct SdArray : Profile {
         p.seed              = rng.next();
         Rng kr              = rng.sub(1);
         p.knobs["clients"]  = kr.range(1, 2);
+        p.knobs["shareddims"] = kr.chance(0.3) ? 1 : 0; // the last dimension gets a name made of its size: datasets share it
         if (kr.chance(0.5))
             p.knobs["sdfillmax"] = 8 * kr.range(1, 40); // fill-value chunk buffer (hook)
         if (kr.chance(0.5))
@@ -402,6 +403,13 @@ struct SdArray : Profile {
                         memcpy(m.fill, fv, (size_t)m.esz());
                         m.fill_set = true;
                         ctx.probe("user-fill");
+                    }
+                    if (p.knob("shareddims", 0) && rank >= 1 && rank <= MAXRANK && !(unl && rank == 1)) {
+                        // datasets whose last dimensions are equally long share that dimension by name; the other dimensions
+                        // keep the names the library gives them
+                        if (SDsetdimname(SDgetdimid(sds, rank - 1), strf("shr_%d", (int)dims[rank - 1]).c_str()) == FAIL)
+                            ctx.fail("create-refused", "create-refused:dimname", strf("naming the last dimension failed: %s", HEstring((hdf_err_code_t)HEvalue(1))));
+                        ctx.probe("shared-dimension");
                     }
                     if (o.arg(10) > 0 && unl)
                         if (SDsetblocksize(sds, (int32)o.arg(10)) == FAIL)
